@@ -229,7 +229,14 @@ def c17(res):
              TRUST_K + ["engine B (tv/builtins_b.py): float built-ins floor/ceil/round/abs/sqrt/is_nan/is_infinite/is_finite of f32 and f64 from the MIR bodies of their registered wrappers "
                         "against z3's IEEE-754 operations for every bit pattern (pow: argument order only, powf uninterpreted); trusts z3's FP theory, the MIR-slice interpreter and "
                         "that the JIT calls the registered wrapper (engine T decides the call itself)",
-                        "outside: char view and lines.len (std iterator adaptors exceed 16 GB), String methods delegating to std, to_string, IpAddr/Prefix accessors"])
+                        "engine B delegations (tv/builtins_b.py, tv/strdeleg.py): 9 IpAddr/Prefix methods and 12 String methods - the MIR body registered under the script-visible name is the "
+                        "documented std / inetnum operation applied to the parameters in order (uninterpreted functions; what std computes is not decided)",
+                        "outside: char view and lines.len (std iterator adaptors exceed 16 GB), StringBuf, String.append/split*/from_chars, List.join, to_string"])
+    b = res.cov.get("builtins", {})
+    n_b = b.get("decided", 0) + len(b.get("delegations", {}).get("decided", [])) + len(b.get("string_delegations", {}).get("decided", []))
+    res.cov["evaluations"] = res.cov.get("evaluations", 0) + n_b
+    res.cov["obligations"] = res.cov.get("obligations", 0) + n_b
+    res.cov["discharged"] = res.cov.get("discharged", 0) + n_b
 
 
 def c20(res):
